@@ -64,15 +64,29 @@ def run(case):
         viol.append(V("callback_presence_alters_run", _case=sub(None),
                       fields=H.same_state(withcb, ref)))
     # (i) state at callback k == result of a run with maxiter = k
+    # An iteration whose line search fails resets the memory, increments nit and is not
+    # reported to the callback; so the k of the i-th callback is found by matching its
+    # iterate with the runs stopped at maxiter = k (first k after the previous one).
     iter_x = {}
-    for i, (live, snap, xarg) in enumerate(states):
-        k = i + 1
-        rk = H.solve(p, case, k)
+    runs = {}
+    for k in range(1, int(ref.nit) + 1):
+        runs[k] = H.solve(p, case, k)
         nex += 1
-        iter_x[k] = np.array(rk.x, copy=True)
+        iter_x[k] = np.array(runs[k].x, copy=True)
+    kprev = 0
+    state_k = []
+    for i, (live, snap, xarg) in enumerate(states):
+        k = next((kk for kk in range(kprev + 1, int(ref.nit) + 1)
+                  if np.array_equal(runs[kk].x, xarg)), None)
+        if k is None:
+            viol.append(V("callback_iterate_is_not_the_iterate_of_any_stopped_run",
+                          _case=sub(None), callback=i + 1))
+            state_k.append(None)
+            continue
+        kprev = k
+        state_k.append(k)
+        rk = runs[k]
         bad = H.same_state(snap, rk)
-        if not np.array_equal(xarg, rk.x):
-            bad.append("x_argument")
         if bad:
             viol.append(V("callback_state_differs_from_run_with_maxiter_k", _case=sub(None),
                           k=k, fields=bad, state_nit=int(snap.nit), run_nit=int(rk.nit)))
@@ -113,10 +127,10 @@ def run(case):
             viol.append(V("live_state_differs_from_snapshot_at_crash", _case=sub(j),
                           fields=bad, k=len(held)))
             continue
-        k = len(held)
-        if k + 1 in iter_x and k == int(snap.nit):
+        k = state_k[len(held) - 1] if len(held) <= len(state_k) else None
+        if k is not None and k + 1 in iter_x and k == int(snap.nit):
             try:
-                r = H.solve(p, case, int(live.nit) + 1, checkpoint=live)
+                r = H.solve(p, case, k + 1, checkpoint=live)
                 nex += 1
                 err = H.relerr(r.x, iter_x[k + 1])
                 if err > TOL:
